@@ -197,7 +197,7 @@ func (s S) Prefix(prefix string) S {
 // involved in a relation.
 func (s S) Add(states ...S) S {
 	if len(states) == 0 {
-		return s
+		return slicesUniq(s)
 	}
 
 	states = append([]S{s}, states...)
